@@ -150,3 +150,6 @@ add("pol_digits_ub", "C03", "R03.6", "digits_ub",
     [("float/src/repr.rs", "            _ => self.significand.log2_bounds().1 / Self::BASE.log2_bounds().0,", "            _ => self.significand.log2_bounds().1 / Self::BASE.log2_bounds().1,")])
 add("pol_half_test", "C10", "R10.4", "round_fract",
     [("float/src/round.rs", "            if lb + 0.999 > b_ub * precision as f32 {", "            if ub + 0.999 > b_ub * precision as f32 {")])
+
+add("r03_7_signed_rem", "C03", "R03.7", "sqrt",
+    [("float/src/root.rs", "        let shift = self.precision as isize * 2 - (digits & 1) + (x.exponent & 1) - digits;", "        let shift = self.precision as isize * 2 - (digits & 1) + (x.exponent % 2) - digits;")])
